@@ -28,16 +28,21 @@ Definition a_clip_tie (cfix : bool) (tol : float) (steps : nat) (ss : list (@ast
 (* a remainder below 1e-2 of the scale of H was normalised into a column that later steps used *)
 Definition a_amplified (steps : nat) (ss : list (@ast cf cvec)) : bool :=
   existsb (fun s => existsb (fun j => subd s j <? amp_tol * hscale s) (seq 0 (steps - 1))) ss.
-(* is the last computed column (index steps) the normalisation of a remainder at rounding level? then it is not compared *)
-Definition last_is_noise (steps : nat) (s : @ast cf cvec) : bool :=
+(* is the remainder of the last step at rounding level?  (then column `steps` is not one of the orthonormal columns) *)
+Definition last_inactive (steps : nat) (s : @ast cf cvec) : bool :=
   match steps with 0 => false | S j => subd s j <? amp_tol * hscale s end.
+(* ... and is column `steps` the NORMALISATION of such a remainder (a unit vector in a direction decided by rounding noise)? then it
+   is not compared.  When the model set it to the zero vector (repaired normalisation: remainder norm <= tol/2) it IS compared:
+   the implementation must return a zero column there, not garbage or NaN *)
+Definition last_is_noise (steps : nat) (s : @ast cf cvec) : bool :=
+  last_inactive steps s && negb (vmaxabs (nth steps (aQ s) []) =? 0).
 
 (* loss of orthogonality of the model's own active columns: single-pass modified Gram-Schmidt loses orthogonality in
    proportion to the conditioning of the Krylov sequence; two binary64 executions that differ by rounding-level
    perturbations then differ by as much, so beyond 1e-12 the case is not compared *)
 Definition orth_tol : float := 0x1.19799812dea11p-40.   (* 1e-12 *)
 Definition orth_loss (steps : nat) (s : @ast cf cvec) : float :=
-  let k := if last_is_noise steps s then steps else S steps in
+  let k := if last_inactive steps s then steps else S steps in
   let qs := firstn k (aQ s) in
   fold_left (fun acc qa =>
     fold_left (fun acc2 qb =>
@@ -86,3 +91,21 @@ Definition amaxdiff_agreeing (cs : list acase) : float :=
 
 (* the case as seen by the repaired variant arnoldi_batch_capped (= arnoldi_batch with max_iters capped at n, C15_Model.v) *)
 Definition cap_case (c : acase) : acase := mk_acase (a_n c) (a_A c) (a_rfix c) (a_cfix c) (a_vs c) (Nat.min (a_mi c) (a_n c)) (a_tol c) (a_out c).
+
+(* comparison without any gate (no near-tie / amplification excuse, every column compared, NaN anywhere = mismatch): for the
+   exact-arithmetic stream (small integers / dyadic data, canonical start vectors, permutations), where every quantity up to the
+   breakdown is exactly representable and both executions are bit-exact, boundary decisions (norm = tol/2, norm = tol*ref,
+   tol = 0 with a remainder that is exactly 0.0) included *)
+Definition acheck_plain (c : acase) : nat :=
+  let o := fops (a_n c) in
+  let r := arnoldi_batch o (fmv (a_A c)) (a_rfix c) (a_cfix c) (a_n c) (a_vs c) (a_mi c) (a_tol c, 0) in
+  if Nat.eqb (length (snd r)) (length (a_out c))
+     && forallb (fun p => let '(Q, H) := snd p in
+                          (mdiff (aQ (fst p)) Q <=? rtol) && (mdiff (aH (fst p)) H <=? rtol * fmax 1 (hscale (fst p))))
+                (combine (snd r) (a_out c))
+  then 0%nat else 4%nat.
+Fixpoint acodes_plain (k : nat) (cs : list acase) : list (nat * nat) :=
+  match cs with
+  | [] => []
+  | c :: t => let r := acheck_plain c in if Nat.eqb r 0 then acodes_plain (S k) t else (k, r) :: acodes_plain (S k) t
+  end.
